@@ -11,10 +11,12 @@ import gen as G
 
 LEVEL = "proof"
 TRUSTED = ["model: coq/Model/ValueFrom.v (vf_inner/vf_query/vf_interval/vf_all cursor machine); theorems: Proofs/ValueFromProofs.v",
-           "interpolate: np.interp is an oracle (piecewise linear through its arguments, edge values held); pynapple's per-interval slicing is what is checked"]
-ASSUMPTIONS = ["exhaustive cases on the dyadic lattice 2^-9 s (float subtraction exact, equidistant ties deterministic); on decimal lattices an exactly "
-               "equidistant pair may resolve either way (float_ambiguous) - both satisfy the statement",
-               "interpolate is labelled partial: the numeric interpolation is NumPy's"]
+           "interpolate: np.interp is an oracle (piecewise linear through its arguments, edge values held; a section variable in C06_interp_slices); pynapple's per-interval "
+           "slicing is what is proved (over C08's get theorems) and checked"]
+ASSUMPTIONS = ["exhaustive cases on the dyadic lattice 2^-9 s (float subtraction exact, equidistant ties deterministic); on decimal lattices a query exactly "
+               "equidistant (in ticks) from two distinct source times may resolve either way (float_ambiguous, counted only at such a tie) - both satisfy the statement",
+               "interpolate is labelled partial: the numeric interpolation is NumPy's; its values are compared with the exact rational piecewise-linear value up to a "
+               "float64 rounding bound 2^-50 * (max|v| + |v1-v0| * max|t| / (t1-t0)); at a query equal to a duplicated source time any sample of that time is accepted"]
 
 U = 1953125
 MODES = ["before", "closest", "after"]
@@ -78,9 +80,13 @@ def cases(tier, seed):
 def run(res, tier, seed):
     nap, CF, J = _nap()
     warnings.simplefilter("ignore")
-    res.rule = ("_value_from kernel path and public value_from/interpolate: (<=3 queries, <=3(4) sources incl. duplicates, 6 IntervalSets incl. intervals with queries but no or one source, "
-                "3 modes) on a 6-point dyadic lattice [seeded subsample of the complete product in quick; complete in thorough] + random decimal cases; compared with the extracted "
-                "cursor-machine model (exact index) and with the statement (acceptable source times per query, NaN iff none). non-trivial = >=1 query and >=1 source in ep")
+    res.rule = ("_value_from kernel path and public value_from/interpolate: (<=3 queries, <=3(4) sources incl. duplicates and EMPTY query/source series, 6 IntervalSets incl. intervals "
+                "with queries but no or one source, 3 modes) on a 6-point dyadic lattice [seeded subsample of the complete product in quick; complete in thorough] + random decimal cases; "
+                "compared with the extracted cursor-machine model (exact index; a closest-mode difference is float_ambiguous only at an exact tick tie) and with the statement "
+                "(acceptable source times per query, NaN iff none). Public path (every 8th(6th) case, empties included): Tsd int/float, TsdFrame float/int, TsdTensor sources x 3 modes: "
+                "class, row shape, result timestamps, EVERY cell of the returned row decodes to one acceptable source row; TsGroup.value_from every member (3, one empty or shorter) x 3 modes (Tsd / TsdFrame / TsdTensor source by mode); "
+                "interpolate for the same 5 source kinds, every column, duplicates included (at a duplicated time any of its samples is acceptable), float rounding bound instead of a "
+                "fixed tolerance. non-trivial = >=1 query and >=1 source in ep")
     res.exhaustive = tier == "thorough"
     cs = cases(tier, seed)
     offs = [0, -3 * U, -1000 * U]
@@ -119,89 +125,175 @@ def run(res, tier, seed):
             mo = out[3 * n + m].split()
             impl_r = ["nan" if j is None else str(idx_t.index(j)) for j in impl_idx]
             if impl_r != mo:
-                tie = m == 1 and kind == "decimal"
+                # closest mode only: a query EXACTLY equidistant (in ticks) from two distinct source times may resolve either way in float64
+                # when the times are not dyadic; the differing positions must all be such ties, anything else is a disagreement
+                tie = (m == 1 and kind == "decimal" and len(impl_r) == len(mo) == len(exp)
+                       and all(a_ == b_ or (acc is not None and len(acc) > 1) for a_, b_, (_, acc) in zip(impl_r, mo, exp)))
                 if tie:
                     res.float_ambiguous += 1
                 else:
                     res.disagreements.append({"op": "_value_from", "input": inp, "impl": impl_r, "model": mo})
         if n % 2003 == 0:
             res.sample({"q": q, "src": s, "ep": ep, "before": out[3 * n], "closest": out[3 * n + 1], "after": out[3 * n + 2]})
-        if n % (6 if tier == "quick" else 3) == 0 and q and s:
-            try:
-                v = public_case(nap, q, s, ep)
-            except Exception as ex:
-                v = {"key": {"op": "public", "part": "exception"}, "what": "public value_from/interpolate raised %s: %s" % (type(ex).__name__, str(ex)[:120]), "input": {"q": q, "src": s, "ep": ep}}
+        if n % (8 if tier == "quick" else 6) == 0:
+            res.count("public_cases")
+            if not q or not s:
+                res.count("public_empty_query_or_source")
             res.evaluations += 1
-            if v:
-                res.violations.append(v)
+            res.violations.extend(public_case(nap, q, s, ep))
+
+
+def _decode(row):
+    """index of the source row a returned row is, from every cell (cell k of source row j holds j + 100*(k+1)); None = all NaN; -1 = mixed"""
+    row = np.asarray(row, dtype=float).reshape(-1)
+    if np.all(np.isnan(row)):
+        return None
+    if np.any(np.isnan(row)):
+        return -1
+    js = {int(v) - 100 * (k + 1) for k, v in enumerate(row)}
+    if len(js) != 1 or any(float(int(v)) != float(v) for v in row):
+        return -1
+    return js.pop()
+
+
+def _cells(n, k, dtype):
+    """(n, k) source values: cell c of row j = j + 100*(c+1): every cell identifies its row"""
+    return (np.arange(n)[:, None] + 100 * (np.arange(k)[None, :] + 1)).astype(dtype)
+
+
+def interp_expect(x, pts):
+    """statement: piecewise-linear through the samples pts (time order) of x's interval, edge values held, None = NaN.
+    Returns None or (set of acceptable exact values, float rounding bound). At a query equal to a sample time any sample at that
+    time is acceptable (duplicates: the broken line is vertical there); before the first / after the last time likewise any
+    sample at that extreme time; strictly between two distinct consecutive times the segment joins the LAST sample of the left
+    time to the FIRST sample of the right one, which is single-valued."""
+    if not pts:
+        return None
+    at = [v for y, v in pts if y == x]
+    eps = 2.0 ** -50
+    if at:
+        return {Fraction(v) for v in at}, 0.0
+    if x < pts[0][0]:
+        return {Fraction(v) for y, v in pts if y == pts[0][0]}, 0.0
+    if x > pts[-1][0]:
+        return {Fraction(v) for y, v in pts if y == pts[-1][0]}, 0.0
+    k = max(i for i, (y, _) in enumerate(pts) if y < x)
+    (y0, v0), (y1, v1) = pts[k], pts[k + 1]
+    want = Fraction(v0) + Fraction(v1 - v0) * Fraction(x - y0, y1 - y0)
+    # float64 evaluation of v0 + (v1-v0)/(t1-t0)*(t-t0) on times known to 1 ulp: relative error of the time differences
+    # <= 2 ulp(max|t|)/(y1-y0), everything else a few ulps of the values
+    tol = eps * (max(abs(v0), abs(v1)) + abs(v1 - v0) * max(abs(x), abs(y0), abs(y1), 1) / (y1 - y0))
+    return {want}, tol
 
 
 def public_case(nap, q, s, ep):
+    """every violation found on the public path for this input (one per source kind / mode / op at most)"""
     epo = nap.IntervalSet(G.arr([a for a, _ in ep]), G.arr([b for _, b in ep]))
     a = nap.Ts(G.arr(q))
     n = len(s)
+    base = {"q": q, "src": s, "ep": ep}
     srcs = {
-        "Tsd_int": nap.Tsd(G.arr(s), np.arange(n) + 100),
-        "Tsd_float": nap.Tsd(G.arr(s), np.arange(n) + 100.0),
-        "TsdFrame": nap.TsdFrame(G.arr(s), np.stack([np.arange(n) + 100.0, np.arange(n) + 200.0], 1), columns=["a", "b"]),
-        "TsdTensor": nap.TsdTensor(G.arr(s), (np.arange(n * 4).reshape(n, 2, 2) // 4) + 100.0),
+        "Tsd_int": nap.Tsd(G.arr(s), _cells(n, 1, np.int64)[:, 0]),
+        "Tsd_float": nap.Tsd(G.arr(s), _cells(n, 1, float)[:, 0]),
+        "TsdFrame": nap.TsdFrame(G.arr(s), _cells(n, 2, float), columns=["a", "b"]),
+        "TsdFrame_int": nap.TsdFrame(G.arr(s), _cells(n, 3, np.int64), columns=["a", "b", "c"]),
+        "TsdTensor": nap.TsdTensor(G.arr(s), _cells(n, 4, float).reshape(n, 2, 2)),
     }
+    wide = nap.IntervalSet(min(q + s + [0]) / 1e9 - 1.0, max(q + s + [0]) / 1e9 + 1.0)
+    members = {4: q, 1: q[::2], 9: q[1:]}
+    g = nap.TsGroup({k_: nap.Ts(G.arr(m_)) for k_, m_ in members.items()}, time_support=wide)
+
+    def vf(name, b, mode, exp):
+        inp = dict(base, mode=mode, source=name)
+        r = a.value_from(b, epo, mode=mode)
+        if type(r) is not type(b) or len(r) != len(exp) or r.values.shape[1:] != b.values.shape[1:]:
+            return {"key": {"op": "value_from", "part": "class_length", "source": name}, "what": "wrong class/length/row shape", "input": inp}
+        if [C.to_ns(x) for x in r.t] != [x for x, _ in exp]:
+            return {"key": {"op": "value_from", "part": "times", "source": name}, "what": "result timestamps are not the queries lying in ep", "input": inp,
+                    "impl": [C.to_ns(x) for x in r.t]}
+        rows = np.asarray(r.values).reshape(len(r), -1) if len(r) else []
+        for row, (x, acc) in zip(rows, exp):
+            j = _decode(row)
+            if j == -1 or (j is None) != (acc is None) or (j is not None and not (0 <= j < n and s[j] in acc)):
+                return {"key": {"op": "value_from", "part": "row", "source": name, "mode": mode},
+                        "what": "public value_from: the returned row is not (the whole of) an acceptable source row / NaN iff no candidate", "input": inp,
+                        "x": x, "impl": np.asarray(row).tolist()}
+        if name in ("Tsd_int", "TsdFrame_int"):
+            anynan = any(acc is None for _, acc in exp)
+            if (not anynan and len(exp)) and not np.issubdtype(r.values.dtype, np.integer):
+                return {"key": {"op": "value_from", "part": "dtype", "source": name}, "what": "integer dtype not kept although no NaN", "input": inp}
+        return None
+
+    def grp(name, mode):
+        # TsGroup.value_from = member-wise, every member
+        rg = g.value_from(srcs[name], epo, mode=mode)
+        if list(rg.keys()) != sorted(members):
+            return {"key": {"op": "TsGroup.value_from", "part": "keys"}, "what": "group value_from lost/reordered members", "input": dict(base, mode=mode, source=name)}
+        for k_, m_ in members.items():
+            rm = nap.Ts(G.arr(m_)).value_from(srcs[name], epo, mode=mode)
+            if type(rg[k_]) is not type(rm) or not np.array_equal(rg[k_].t, rm.t) or not np.array_equal(rg[k_].values, rm.values, equal_nan=True):
+                return {"key": {"op": "TsGroup.value_from", "part": "member", "mode": mode}, "what": "group value_from differs from the member's own value_from",
+                        "input": dict(base, mode=mode, source=name, member=k_)}
+        return None
+
+    # interpolate: per interval piecewise-linear, edges held, NaN if no source in the interval; every source class, int and float
+    qq = [x for x in q if G.mem(x, ep)]
+    zero_span = bool((len(q) > 0 and q[0] == q[-1]) or (len(s) > 0 and s[0] == s[-1]))
+    isrc = {
+        "Tsd_float": (1, float, lambda v: nap.Tsd(G.arr(s), v[:, 0])),
+        "Tsd_int": (1, np.int64, lambda v: nap.Tsd(G.arr(s), v[:, 0])),
+        "TsdFrame": (2, float, lambda v: nap.TsdFrame(G.arr(s), v, columns=["a", "b"])),
+        "TsdFrame_int": (2, np.int64, lambda v: nap.TsdFrame(G.arr(s), v)),
+        "TsdTensor": (4, float, lambda v: nap.TsdTensor(G.arr(s), v.reshape(n, 2, 2))),
+    }
+
+    def interp(name):
+        kc, dt, mk = isrc[name]
+        vals = np.array([[((k * 37 + c * 5) % 11) * 64 for c in range(kc)] for k in range(n)], dtype=dt).reshape(n, kc)
+        b = mk(vals)
+        inp = dict(base, source=name)
+        ri = b.interpolate(a, epo)
+        if type(ri) is not type(b) or ri.values.shape[1:] != b.values.shape[1:]:
+            return {"key": {"op": "interpolate", "part": "class", "source": name}, "what": "interpolate changed the class / row shape", "input": inp}
+        if [C.to_ns(x) for x in ri.t] != qq:
+            return {"key": {"op": "interpolate", "part": "times", "source": name}, "what": "interpolate timestamps are not the queries in ep", "input": inp}
+        got = np.asarray(ri.values, dtype=float).reshape(len(qq), -1) if qq else []
+        for x, row in zip(qq, got):
+            a0, b0 = [(u, w) for u, w in ep if u <= x <= w][0]
+            for c in range(kc):
+                val = float(row[c])
+                e_ = interp_expect(x, [(y, int(vals[k, c])) for k, y in enumerate(s) if a0 <= y <= b0])
+                if e_ is None:
+                    if not np.isnan(val):
+                        return {"key": {"op": "interpolate", "part": "nan", "source": name}, "what": "interval without source sample is not NaN", "input": inp, "x": x}
+                    continue
+                acc, tol = e_
+                if np.isnan(val) or not any(abs(Fraction(val) - w) <= Fraction(tol) for w in acc):
+                    # got_nan & zero_span_series: the one recorded finding (a series whose timestamps all coincide has an empty default support)
+                    return {"key": {"op": "interpolate", "part": "value", "source": name, "zero_span_series": zero_span, "got_nan": bool(np.isnan(val))},
+                            "what": "interpolated value is not the piecewise-linear value within the same interval",
+                            "input": inp, "x": x, "column": c, "impl": val, "expected": sorted(float(w) for w in acc)}
+        return None
+
+    V = []
+
+    def guard(op, f, *args):
+        try:
+            v = f(*args)
+        except Exception as ex:
+            v = {"key": {"op": op, "part": "exception"}, "what": "public %s raised %s: %s" % (op, type(ex).__name__, str(ex)[:120]),
+                 "input": dict(base, args=[x for x in args if isinstance(x, str)])}
+        if v:
+            V.append(v)
+
     for mode in MODES:
         exp = oracle_times(q, s, ep, mode)
         for name, b in srcs.items():
-            inp = {"q": q, "src": s, "ep": ep, "mode": mode, "source": name}
-            r = a.value_from(b, epo, mode=mode)
-            if type(r) is not type(b) or len(r) != len(exp):
-                return {"key": {"op": "value_from", "source": name}, "what": "wrong class/length", "input": inp}
-            vals = np.asarray(r.values).reshape(len(r), -1)[:, 0] if len(r) else np.array([])
-            for val, (x, acc) in zip(vals, exp):
-                j = None if (isinstance(val, float) or np.issubdtype(type(val), np.floating)) and np.isnan(val) else int(val - 100)
-                if (j is None) != (acc is None) or (j is not None and s[j] not in acc):
-                    return {"key": {"op": "value_from", "source": name, "mode": mode}, "what": "public value_from picked a wrong neighbour", "input": inp,
-                            "impl": vals.tolist()}
-            if name == "Tsd_int":
-                anynan = any(acc is None for _, acc in exp)
-                if (not anynan and len(exp)) and not np.issubdtype(r.values.dtype, np.integer):
-                    return {"key": {"op": "value_from", "part": "dtype"}, "what": "integer dtype not kept although no NaN", "input": inp}
-        # TsGroup.value_from = member-wise
-    wide = nap.IntervalSet(min(q + s) / 1e9 - 1.0, max(q + s) / 1e9 + 1.0)
-    g = nap.TsGroup({4: nap.Ts(G.arr(q)), 1: nap.Ts(G.arr(q[::2]))}, time_support=wide)
-    rg = g.value_from(srcs["Tsd_float"], epo, mode="closest")
-    r4 = a.value_from(srcs["Tsd_float"], epo, mode="closest")
-    if list(rg.keys()) != [1, 4] or not np.array_equal(rg[4].values, r4.values, equal_nan=True):
-        return {"key": {"op": "TsGroup.value_from"}, "what": "group value_from differs from member result", "input": {"q": q, "src": s, "ep": ep}}
-    # interpolate: per interval piecewise-linear, edges held, NaN if no source in the interval
-    b = nap.Tsd(G.arr(s), np.array([(k * 37) % 11 for k in range(n)], dtype=float) * 64)
-    try:
-        ri = b.interpolate(a, epo)
-    except Exception as ex:
-        return {"key": {"op": "interpolate", "part": "exception"}, "what": "interpolate raised " + type(ex).__name__, "input": {"q": q, "src": s, "ep": ep}}
-    qq = [x for x in q if G.mem(x, ep)]
-    if [C.to_ns(x) for x in ri.t] != qq:
-        return {"key": {"op": "interpolate", "part": "times"}, "what": "interpolate timestamps are not the queries in ep", "input": {"q": q, "src": s, "ep": ep}}
-    for x, val in zip(qq, ri.values):
-        a0, b0 = [(u, w) for u, w in ep if u <= x <= w][0]
-        pts = [(y, float(b.values[k])) for k, y in enumerate(s) if a0 <= y <= b0]
-        if not pts:
-            if not np.isnan(val):
-                return {"key": {"op": "interpolate", "part": "nan"}, "what": "interval without source sample is not NaN", "input": {"q": q, "src": s, "ep": ep}}
-            continue
-        # np.interp semantics on duplicates is NumPy's; compare only where source times in the interval are distinct
-        if len(set(y for y, _ in pts)) != len(pts):
-            continue
-        if x <= pts[0][0]:
-            want = Fraction(pts[0][1])
-        elif x >= pts[-1][0]:
-            want = Fraction(pts[-1][1])
-        else:
-            k = max(i for i, (y, _) in enumerate(pts) if y <= x)
-            (y0, v0), (y1, v1) = pts[k], pts[k + 1]
-            want = Fraction(v0) + Fraction(v1 - v0) * Fraction(x - y0, y1 - y0)
-        if np.isnan(val) or abs(Fraction(float(val)) - want) > Fraction(1, 10**6):
-            return {"key": {"op": "interpolate", "part": "value", "zero_span_series": bool(q[0] == q[-1] or s[0] == s[-1])},
-                    "what": "interpolated value is not the piecewise-linear value within the same interval",
-                    "input": {"q": q, "src": s, "ep": ep}, "x": x, "impl": float(val), "expected": float(want)}
-    return None
+            guard("value_from", vf, name, b, mode, exp)
+        guard("TsGroup.value_from", grp, {"before": "Tsd_float", "closest": "TsdFrame", "after": "TsdTensor"}[mode], mode)
+    for name in isrc:
+        guard("interpolate", interp, name)
+    return V
 
 
 def search(res, seed):
@@ -225,6 +317,6 @@ def replay(payload):
         for j, (x, acc) in zip(impl, exp):
             if (j is None) != (acc is None) or (j is not None and s[j] not in acc):
                 bad = 1
-    pv = public_case(nap, q, s, ep) if q and s else None
-    print("public:", pv)
+    pv = [v_ for v_ in public_case(nap, q, s, ep) if C.match_known("C06", v_) is None]
+    print("public (violations not matching a known finding):", pv)
     return 1 if bad or pv else 0
